@@ -222,9 +222,12 @@ def run_case(spec):
             with Hooks([log], proposal_budget=BUDGET, clock=VirtualClock()):
                 s = workloads.make_sampler(prob, cfg, filepath=path, resume=False)
                 k = 0
+                # quick tier: a run of many hundred tiny batches is cut at every boundary up to the 100th and then at
+                # every step-th (step odd, so that all residue classes keep occurring)
+                step = (max(1, K // 100) | 1) if (env.tier() == 'quick' and K > 200) else 1
                 try:
                     while True:
-                        k += 1
+                        k += 1 if k < 100 else step
                         done = s.run(**_kw(cfg, n_like_max=k * nb))
                         obs['stops'] += 1
                         thin = (cfg['n_update'] == 1 and not s.explored and (k // RR) % 4 != 0) or \
